@@ -217,6 +217,11 @@ func cmdCheck(args []string) int {
 	if err != nil {
 		return undecided(err.Error())
 	}
+	for _, f := range findings {
+		if !f.Fixed {
+			g.findingObls[f.Obligation] = f.When
+		}
+	}
 	lock, err := loadLock(filepath.Join(*verif, "obligations.lock"))
 	if err != nil {
 		return undecided(err.Error())
@@ -355,7 +360,7 @@ func cmdCheck(args []string) int {
 	assumptions := []string{
 		"integers are mathematical (no wrap-around); values read from parameters/heap are assumed inside their Go type's range",
 		"memory model: per-(struct,field) heap arrays indexed by (base,offset) references; pointers to scalar struct fields do not escape; unsafe/cgo absent",
-		"append always yields a fresh backing array (in-place aliasing through spare capacity is not modelled)",
+		"append is modelled with both Go behaviours (in place when len+k <= cap, fresh backing array otherwise); copy() havocs the destination",
 		"callees without a contract: results unconstrained, frame inferred from their SSA (external callees: pure list or havoc-all); callee panics/non-termination are the callee's own obligations",
 		"single-threaded semantics (sync primitives are no-ops); termination not proved",
 		"strings are an uninterpreted sort with distinct literals; fmt.Sprintf/strconv as uninterpreted functions with the listed axioms",
